@@ -581,6 +581,6 @@ func runC03(r *Run) {
 	r.Cases(60000, r.N(40, 300), 8, func(c *Case, rng *Rng) { c03OperatorMulti(r, c, rng) })
 	r.Cases(70000, r.N(300, 3000), 0, func(c *Case, rng *Rng) { c03HeadChange(c, rng) })
 	r.Cases(80000, r.N(60, 600), 0, func(c *Case, rng *Rng) { c03LockWindows(c, rng) })
-	r.Cases(90000, r.N(150, 1500), 0, func(c *Case, rng *Rng) { c03FilterWindow(c, rng) })
-	r.Cases(95000, r.N(30, 250), 8, func(c *Case, rng *Rng) { c03OperatorWebhook(r, c, rng) })
+	r.Cases(90000, r.N(150, 1000), 0, func(c *Case, rng *Rng) { c03FilterWindow(c, rng) })
+	r.Cases(95000, r.N(30, 160), 8, func(c *Case, rng *Rng) { c03OperatorWebhook(r, c, rng) })
 }
